@@ -685,12 +685,11 @@ impl<'a, 'b, R: FileManager> TypeModuleWalker<'a, R, AddressedQualifiedType>
                 anchor,
                 DiagnosticInfoMessage::CannotUseInterfaceInQualifiedTypePosition,
             ),
-            SymbolExport::ValueExpr { .. } => {
-                unreachable!("we use get_type which filters these out")
-            }
-            SymbolExport::ExprDecl { .. } => {
-                unreachable!("we use get_type which filters these out")
-            }
+            // get_type filters values out of named exports, but a value can still arrive here
+            // through a default export (`export { v as default }` / `export default v`)
+            SymbolExport::ValueExpr { .. } | SymbolExport::ExprDecl { .. } => self
+                .ctx
+                .error(anchor, DiagnosticInfoMessage::CannotUseValueInTypePosition),
         }
     }
 
@@ -1014,10 +1013,15 @@ impl<'a, 'b, R: FileManager> ValueModuleWalker<'a, R, AddressedQualifiedValue>
             SymbolExport::StarOfOtherFile { reference } => {
                 self.get_addressed_item_from_import_reference(reference.as_ref(), anchor)
             }
-            SymbolExport::TsType { .. } => unreachable!("we use get_value wich filters these out"),
-            SymbolExport::TsInterfaceDecl { .. } => {
-                unreachable!("we use get_value wich filters these out")
-            }
+            // get_value filters types out of named exports, but a type can still arrive here
+            // through a default export (`export { T as default }`)
+            SymbolExport::TsType { .. } => self
+                .ctx
+                .error(anchor, DiagnosticInfoMessage::CannotUseTypeInValuePosition),
+            SymbolExport::TsInterfaceDecl { .. } => self.ctx.error(
+                anchor,
+                DiagnosticInfoMessage::CannotUseInterfaceInValuePosition,
+            ),
             SymbolExport::TsEnumDecl {
                 decl,
                 original_file,
